@@ -2152,12 +2152,18 @@ fn resolve_container_mount_params(
     }
     csv_writer.write_record(None::<&[u8]>)?;
 
-    return Ok(String::from_utf8(
+    let mount_str = String::from_utf8(
         csv_writer
             .into_inner()
             .expect("connot convert Mount params back into CSV"),
     )
-    .expect("connot convert Mount params back into CSV"));
+    .expect("connot convert Mount params back into CSV");
+
+    // the CSV writer terminates the record with a newline, which is not part of the value
+    return Ok(mount_str
+        .strip_suffix('\n')
+        .unwrap_or(mount_str.as_str())
+        .to_string());
 }
 
 #[cfg(test)]
